@@ -13,7 +13,7 @@ import SqlglotModel.Generated.C17
 namespace SqlglotModel.Properties.C17
 open SqlglotModel.Lineage
 open SqlglotModel.Generated.C17 (keyComps recursiveCalls recursiveCallsPassCache keyNormalisations refNormalisations
-  expandAliasVariant)
+  expandAliasVariant branchCopiesCteSources traverseCtesUpdatesInPlace)
 open SqlglotModel.Ident (Ident CaseFns Strategy asciiFns)
 
 /-- the configuration the current source induces -/
@@ -301,6 +301,36 @@ theorem expand_alias_forgets_quoting_witness :
     SqlglotModel.Lineage.normKey asciiFns .lowercase [⟨"Orders1", true⟩] ≠
       SqlglotModel.Lineage.normKey asciiFns .lowercase [⟨"orders1", false⟩] ∧
     expandAlias .fullName asciiFns .lowercase false "" "Orders1" = expandAlias .fullName asciiFns .lowercase false "" "orders1" := by
+  decide +kernel
+
+
+/-! ### CTE names are visible lexically: a nested WITH does not leak into sibling scopes -/
+
+/-- table fact (decided against the regenerated data, sqlglot/optimizer/scope.py): `Scope.branch` builds a NEW
+    `cte_sources` dict for every child (or `_traverse_ctes` does not update it in place).  Handing the parent's dict
+    itself to a child under any condition breaks the build. -/
+theorem generated_cte_env_isolated : (branchCopiesCteSources || !traverseCtesUpdatesInPlace) = true := by decide
+
+/-- **sibling independence**: with per-child copies, what child `i` resolves a name to is its own WITH over the
+    parent's mapping `E` — whatever the OTHER children define in their nested WITHs (two sibling lists that agree on
+    child `i` give the same answer, for every name) -/
+theorem cte_sibling_independence (E : CteEnv) (sibs sibs' : List CteEnv) (i : Nat) (n : String)
+    (h : sibs[i]? = sibs'[i]?) :
+    cteVisible true E sibs i n = cteVisible true E sibs' i n ∧
+      cteVisible true E sibs i n = envGet n ((sibs[i]?).getD [] ++ E) := by
+  simp only [cteVisible, parentEnvAt_copies, h, and_self]
+
+/-- witness for the shared-dict variant: outer `WITH c` (scope 0); the first derived table has its own
+    `WITH c` (scope 7); the LATER sibling, which defines nothing, resolves `c` to 7 instead of 0.  With copies it
+    sees 0; and under an EMPTY outer mapping even the shared variant does not leak (fresh dict per child). -/
+theorem cte_shared_dict_leak_witness :
+    cteVisible false [("c", 0)] [[("c", 7)], []] 1 "c" = some 7 ∧
+    cteVisible true [("c", 0)] [[("c", 7)], []] 1 "c" = some 0 ∧
+    cteVisible false [("c", 0)] [[("c", 7)], []] 0 "c" = some 7 ∧
+    cteVisible false [] [[("c", 7)], []] 1 "c" = none ∧
+    -- shadowing a base table: `t` is no CTE for the later sibling (none = the physical table) unless it leaks
+    cteVisible true [("k", 0)] [[("t", 7)], []] 1 "t" = none ∧
+    cteVisible false [("k", 0)] [[("t", 7)], []] 1 "t" = some 7 := by
   decide +kernel
 
 end SqlglotModel.Properties.C17
